@@ -1,5 +1,6 @@
 """Subprocess helper for C18: run the real generator under a given configuration.
-argv: repo xml_root out_root walk_seed(int, 0 = natural order) twice(0/1)
+argv: repo xml_root out_root walk_seed(int, 0 = natural order) twice(0/1) [paths(0 absolute, 1 = "." from inside the
+XML directory, 2 = relative to the parent directory, 3 = with a trailing "/." and a doubled separator)]
 Prints one JSON line {"ok": bool, "error": str|None}. PYTHONHASHSEED comes from the environment."""
 import contextlib
 import io
@@ -31,6 +32,18 @@ def permuted_walk(seed):
 
 def main():
     repo, xml_root, out_root, walk_seed, twice = sys.argv[1:6]
+    paths = int(sys.argv[6]) if len(sys.argv) > 6 else 0
+    repo = os.path.abspath(repo)
+    if paths == 1:
+        out_root = os.path.abspath(out_root)
+        os.chdir(xml_root)
+        xml_root, out_root = ".", os.path.relpath(out_root)
+    elif paths == 2:
+        base = os.path.dirname(os.path.abspath(xml_root))
+        xml_root, out_root = os.path.relpath(xml_root, base), os.path.relpath(out_root, base)
+        os.chdir(base)
+    elif paths == 3:
+        xml_root = os.path.dirname(xml_root) + os.sep + os.sep + os.path.basename(xml_root) + os.sep + "."
     sys.path.insert(0, repo)
     sys.dont_write_bytecode = True
     from protocol_code_generator.generate import code_generator as gm
